@@ -37,8 +37,12 @@
    The ESM kill switch of an app (esm MsgKillSwitch, op OKill) and the depreciation of a pool (governance proposal,
    op ODepreciate) are part of the state and of the histories; every handler's early return on them is modelled in
    place ([c08_kill_switch_freezes], [c08_depreciated_pool_closed]).
-   Not modelled: the generation-1 liquidation / auction modules (x/liquidation MsgLiquidateBorrow, x/auction
-   lend bids, CreteNewBorrow), the block hook DeletePoolAndTransferInterest (it deletes pool records). *)
+   The generation-1 hand-over message (x/liquidation MsgLiquidateBorrow, still routed; op OHandOverV1, its sell-off
+   amounts are environment inputs) is part of the histories: finding C08-F4, it flags the position and leaves the
+   principal in the totals borrowed ([kf_C08_4], [c08_books_refuted_v1_handover]); [clean] histories exclude the
+   hand-overs of classes 2 and 4.
+   Not modelled: the life of a generation-1 auction (x/auction lend bids, x/liquidation UnLiquidateLockedBorrows,
+   lend CreteNewBorrow), the block hook DeletePoolAndTransferInterest (it deletes pool records). *)
 From Comdex Require Import Lib.Base Lib.DecArith Lib.DecFacts Model.Lend Model.LendEx.
 From Comdex Require Import Proofs.LendProofs Proofs.LendProofsInv Proofs.LendProofsSide Proofs.LendProofsSteps Proofs.LendProofsSteps2
      Proofs.LendProofsLiq Proofs.LendProofsClose Proofs.LendProofsCloseRule Proofs.LendProofsHist Proofs.LendProofsLtv Proofs.LendProofsRules
@@ -87,7 +91,8 @@ Proof.
 Qed.
 Print Assumptions c08_history.
 
-(* a history is clean when it contains no hand-over at all (the lend messages, funding messages and oracle moves) *)
+(* a history is clean when it contains no hand-over at all, of either generation (the lend messages, funding messages,
+   kill-switch and depreciation changes and oracle moves) *)
 Theorem c08_clean_without_handover : forall cfg st0 ops,
   forallb (fun o => negb (is_handover o)) ops = true -> clean cfg st0 ops.
 Proof. intros cfg st0 ops H. exact (clean_no_handover cfg ops st0 H). Qed.
@@ -108,6 +113,30 @@ Proof.
   split; [apply cleanb_ok; vm_compute; reflexivity|]. vm_compute. repeat split.
 Qed.
 Print Assumptions c08_books_refuted_handover.
+
+(* finding C08-F4: the generation-1 hand-over message x/liquidation MsgLiquidateBorrow is still routed.  It flags the
+   position but, unlike the (unwired) block-hook variant of the same module and unlike generation 2, leaves its principal
+   in the published totals borrowed: inside class 4 the identity of totals borrowed is false.  Witness (replayed on the
+   real keepers by harness/c08_close_test.go, case 3, same numbers): total borrowed 900 000 with the only position of the
+   pool-asset under liquidation.  (The unsold rest of the collateral, 650 793 651, stays pledged on the flagged position;
+   the model's sum of total lent does not count flagged positions, so [holds_C08_lend] is false after the message too -
+   by the property's own wording, "not handed over to a liquidation auction", that part is still counted.) *)
+Theorem c08_books_refuted_v1_handover :
+  exists cfg st0 ops o, empty_books st0 /\ clean cfg st0 ops /\ kf_C08_4 (run cfg st0 ops) o = true /\
+    is_ok (step cfg (run cfg st0 ops) o) = true /\
+    let st' := run cfg st0 (ops ++ [o]) in
+    holds_C08_borrow cfg st' = false /\
+    option_map b_liq (zget (borrows st') 1) = Some true /\
+    option_map s_bor (pget (sstats st') (1, 3)) = Some 900000 /\
+    bor_sum cfg (borrows st') 1 false (1, 3) = 0 /\
+    option_map (fun b => (b_in b, b_out b)) (zget (borrows st') 1) = Some (650793651, 900000) /\
+    option_map s_lend (pget (sstats st') (1, 2)) = Some 1650793651.
+Proof.
+  exists ex_cfg, ex_st0, ex_v1_prefix, ex_v1_handover.
+  split; [apply empty_booksb_ok; vm_compute; reflexivity|].
+  split; [apply cleanb_ok; vm_compute; reflexivity|]. vm_compute. repeat split.
+Qed.
+Print Assumptions c08_books_refuted_v1_handover.
 
 Example c08_history_nonvacuous :
   empty_booksb ex_st0 = true /\ cleanb ex_cfg ex_st0 ex_history = true /\
